@@ -159,6 +159,9 @@ func (s *DHSession) Parameter(rand io.Reader, _ *rsa.PublicKey) ([]byte, error) 
 // SetParameter sets the received parameter from the client. This method is only called by a
 // server.
 func (s *DHSession) SetParameter(xB []byte, _ *rsa.PrivateKey) error {
+	if s.a == nil {
+		return fmt.Errorf("key exchange has no private parameter (already completed?)")
+	}
 	s.xB = new(big.Int).SetBytes(xB)
 
 	// Compute session key
